@@ -156,7 +156,7 @@ pub fn check(tier: Tier) -> i32 {
     let mut rep = Report::new("C05", tier, "model_checking");
     rep.rule = "abstract values: every list of at most l lines over the menu {a, 'b c', ' x' (more indented), tab-led, empty, empty-with-spaces, a line of n+1 spaces, '- z', 'k: v', '# n'}; configurations: {literal, folded} x {strip, clip, keep} x {auto, explicit 1, explicit 2 (both indicator orders)} x 6 parent contexts (+3 wide-indentation contexts and long lines in the thorough tier) x header comment x 5 end-of-input shapes; each is rendered to text, parsed by the real parser (3 input back-ends) and the block scalar's value and the surrounding structure are compared with the §8.1 reference semantics. Non-trivial: every rendered case; distinct: distinct (line kinds, configuration, denoted text).".into();
     rep.assumptions = vec![
-        "declined zones (not generated, see DESIGN §4 C05): explicit indentation indicator at document level; keep + a final spaces-only line without a line break; content-less scalar at document level with spaces-only lines followed by a document marker; auto-detected indentation whose first non-empty line starts with a space".into(),
+        "declined zones (not generated, see DESIGN §4 C05): explicit indentation indicator at document level; keep + a final spaces-only line without a line break; auto-detected indentation whose first non-empty line starts with a space".into(),
     ];
     let budget = Budget::new(wall_cap(tier));
     rep.mandatory_scopes = 1;
